@@ -9,6 +9,7 @@ from amaranth         import Signal, Module, Cat, Elaboratable, ClockSignal
 
 from .receiver      import RxPipeline
 from .transmitter   import TxPipeline
+from ...utils.cdc   import stretch_strobe_signal
 
 class GatewarePHY(Elaboratable):
     """ Gateware that implements a UTMI-compatible transciever using raw FPGA I/O.
@@ -225,8 +226,11 @@ class GatewarePHY(Elaboratable):
             self.rx_data     .eq(receiver.o_data_payload),
             self.rx_valid    .eq(receiver.o_data_strobe & receiver.o_pkt_in_progress),
             self.rx_active   .eq(receiver.o_pkt_in_progress),
-            self.rx_error    .eq(receiver.o_receive_error)
         ]
+
+        # Our receiver reports errors with a strobe in its fast I/O domain, which is four times as fast as
+        # the domain our UTMI signals are consumed in; stretch the strobe so it's visible for a full UTMI cycle.
+        stretch_strobe_signal(m, receiver.o_receive_error, to_cycles=4, output=self.rx_error, domain=m.d.usb_io)
         m.d.usb += self.rx_complete .eq(receiver.o_pkt_end)
 
 
